@@ -936,10 +936,16 @@ class TreeTransform(Generic[TreeFnT]):
   ):
     """Checks the assign keys are valid."""
     non_dict_keys, dict_keys = mit.partition(_is_dict, assign_keys)
-    new_keys = set(itertools.chain(non_dict_keys, *dict_keys))
+    new_keys = list(itertools.chain(non_dict_keys, *dict_keys))
+    # The set below hides the keys repeated within this assignment. SKIP only
+    # drops an output, so it can be repeated.
+    repeated_keys = {k for k in new_keys if new_keys.count(k) > 1}
+    repeated_keys.discard(tree.Key.SKIP)
+    new_keys = set(new_keys)
     if exisiting_keys is None:
       exisiting_keys = self.output_keys
-    if conflicting_keys := new_keys.intersection(exisiting_keys):
+    conflicting_keys = new_keys.intersection(exisiting_keys) | repeated_keys
+    if conflicting_keys:
       raise KeyError(
           f'Duplicate output_keys: {conflicting_keys} from assignment of'
           f' {assign_keys}'
